@@ -126,7 +126,7 @@ def is_refusal(res):
 
 # ---- generators ------------------------------------------------------------------------------
 
-def gen_race_history(w, rng, tier, regime=None, restarts=True, ties=True, p_rewrap=0.25, p_leave=0.0, p_adv=0.25):
+def gen_race_history(w, rng, tier, regime=None, restarts=True, ties=True, p_rewrap=0.25, p_leave=0.0, p_adv=0.25, p_hole=0.3):
     """setup, then rounds of concurrent actions on one epoch, per-client shuffled delivery with
     duplication, then quiescence rounds"""
     n = rng.choice([2, 3, 3, 4, 5] if tier == "quick" else [2, 3, 4, 5, 6])
@@ -144,17 +144,34 @@ def gen_race_history(w, rng, tier, regime=None, restarts=True, ties=True, p_rewr
     ts = 100
     delivered = {c: set() for c in range(n)}
     tok = 0
+    alive = list(range(n))
+    # an admin removes a member first, so that the ratchet tree has a blank leaf below later committers
+    # (leaf indices and positions in the member list then differ); the removed client is not scheduled again
+    if n >= 3 and rng.random() < p_hole:
+        cand = [c for c in range(1, n - 1) if c not in admins] or [c for c in range(1, n) if c not in admins]
+        if cand:
+            v = rng.choice(cand); ts += 3
+            e = w.publish(f"remove 0 {v} {ts}", "commit", 0)
+            if e is not None:
+                w.events[e]["apply"] = "immediate"
+                w.do("merge 0")
+                alive.remove(v)
+                w.meta["gone"] = [v]
+                for c in alive:
+                    if c != 0:
+                        w.deliver(c, e)
+            ts += 5
     rounds = rng.randint(1, 3 if tier == "quick" else 5)
     for rd in range(rounds):
         new = []
         # messages before the race
         for _ in range(rng.randint(0, 2)):
-            s = rng.randrange(n); tok += 1; ts += 1
+            s = rng.choice(alive); tok += 1; ts += 1
             e = w.publish(f"send {s} {tok} {ts}", "app", s)
             if e is not None: new.append(e)
         # k concurrent commits on the current epoch
         k = rng.choice([1, 1, 2, 2, 3])
-        committers = rng.sample(range(n), min(k, n))
+        committers = rng.sample(alive, min(k, len(alive)))
         base = ts + 10
         stamps = [base + rng.choice([0, 0, 1, 2, -1]) for _ in committers] if ties else rng.sample(range(base - 2, base + 4), len(committers))
         for c, st in zip(committers, stamps):
@@ -179,13 +196,13 @@ def gen_race_history(w, rng, tier, regime=None, restarts=True, ties=True, p_rewr
                 new.append(k)
         # a member asks to leave (a proposal; an admin receiver auto-commits it)
         if rng.random() < w.meta.get("p_leave", 0.0):
-            s = rng.randrange(n); ts += 1
+            s = rng.choice(alive); ts += 1
             e = w.publish(f"leave {s} {ts}", "proposal", s)
             if e is not None: new.append(e)
         # a NON-admin member builds a Remove commit with the MLS library directly, with a chosen timestamp
-        nonadmins = [c for c in range(n) if c not in admins]
+        nonadmins = [c for c in alive if c not in admins]
         if nonadmins and rng.random() < p_adv:
-            a = rng.choice(nonadmins); victim = rng.choice([c for c in range(n) if c != a])
+            a = rng.choice(nonadmins); victim = rng.choice([c for c in alive if c != a])
             e = w.publish(f"advremove {a} {victim} {base + rng.choice([-9, -4, 0, 3, 8])}", "commit", a)
             if e is not None:
                 w.events[e]["adv"] = True
@@ -193,11 +210,11 @@ def gen_race_history(w, rng, tier, regime=None, restarts=True, ties=True, p_rewr
         ts = base + 5
         # messages after (from clients on their own — possibly pending — state)
         for _ in range(rng.randint(0, 2)):
-            s = rng.randrange(n); tok += 1; ts += 1
+            s = rng.choice(alive); tok += 1; ts += 1
             e = w.publish(f"send {s} {tok} {ts}", "app", s)
             if e is not None: new.append(e)
         # deliveries
-        for c in range(n):
+        for c in alive:
             order = list(new)
             if regime != "inorder":
                 rng.shuffle(order)
@@ -217,7 +234,7 @@ def gen_race_history(w, rng, tier, regime=None, restarts=True, ties=True, p_rewr
                 if rng.random() < 0.15:
                     w.deliver(c, e)      # duplicate
         if rng.random() < 0.25:
-            sqls = [c for c in range(n) if backends[c] == "sql"]
+            sqls = [c for c in alive if backends[c] == "sql"]
             if sqls:
                 victim = rng.choice(sqls)
                 if restarts:
@@ -225,12 +242,18 @@ def gen_race_history(w, rng, tier, regime=None, restarts=True, ties=True, p_rewr
     quiesce(w)
     return w
 
+def gone_clients(w):
+    """clients an admin's `remove` took out of the group (the generator stops scheduling them)"""
+    return {int(cmd.split()[2]) for cmd, res, _ in w.trace if cmd.startswith("remove ") and res.startswith("ev=")}
+
 def quiesce(w, max_rounds=5):
     """offer every event again to every client until a whole round changes no fingerprint"""
     w.quiesce_start = len(w.trace)
     for rd in range(max_rounds):
         changed = False
         for c in range(w.n_clients):
+            if c in gone_clients(w):
+                continue
             for e in sorted(w.events):
                 _, before, after = w.deliver(c, e)
                 if proj(before) != proj(after):
@@ -306,6 +329,9 @@ def oracle_world(w):
                             # timestamp, the rollback happens, and the ciphertext cannot be decrypted a second time
                             sig = "rewrapped-commit-rollback"
                     fail("C06", sig, i, f"`{cmd}` returned {r0} but the projection changed: {proj(before)} -> {proj(f)}")
+                evd = w.events.get(int(t[2]), {})
+                if r0 == "commit" and evd.get("adv") and before["token"] != f["token"]:
+                    fail("C05", "nonadmin-commit-accepted", i, f"`{cmd}`: the Remove commit a NON-admin (c{evd.get('sender')}) built with the MLS library was applied: {proj(before)} -> {proj(f)}")
                 key = (c, int(t[2]))
                 rec = before["recs"].get(int(t[2]))
                 if rec is not None and rec[0] in ("p", "k", "f", "x") and key in seen_effect and proj(before) != proj(f):
@@ -321,7 +347,8 @@ def oracle_world(w):
             prev_fp[c] = f
     # ---- convergence (C01) and messages (C02) at quiescence ----
     final = {c: w.fps.get(c) for c in range(w.n_clients)}
-    live = {c: f for c, f in final.items() if f is not None and f["state"] == "a" and str(c) in f["members"].split(",")}
+    gone = gone_clients(w)
+    live = {c: f for c, f in final.items() if f is not None and c not in gone and f["state"] == "a" and str(c) in f["members"].split(",")}
     facts = {"quiesced": getattr(w, "quiesced", None), "live": len(live), "commits": len(commits),
              "rollbacks": sum(1 for i in range(1, len(w.trace)) if False)}
     if getattr(w, "quiesced", False) and len(live) >= 2:
@@ -481,6 +508,8 @@ def model_input(w):
             out.append((i, f"name {t[1]} {t[3]} {ev.group(1)} {ev.group(3)} {ev.group(2)}" if ev else f"name {t[1]} {t[3]} 9999 0 0"))
         elif t[0] == "leave":
             out.append((i, f"leave {t[1]} {ev.group(1)} {ev.group(3)} {ev.group(2)}" if ev else f"leave {t[1]} 9999 0 0"))
+        elif t[0] == "remove":
+            out.append((i, f"remove {t[1]} {t[2]} {ev.group(1)} {ev.group(3)} {ev.group(2)}" if ev else f"remove {t[1]} {t[2]} 9999 0 0"))
         elif t[0] == "advremove":
             if ev:      # the crafting itself can fail in OpenMLS (e.g. the adversary has a commit pending): nothing is published
                 out.append((i, f"advremove {t[1]} {t[2]} {ev.group(1)} {ev.group(3)} {ev.group(2)}"))
@@ -595,12 +624,43 @@ def oracle_c11(pairs):
         if nrest:
             stats["pairs_with_restart"] += 1
         va, vb = final_view(a), final_view(b)
-        if va == vb:
+        # "does not change the result of any later call": the heads of corresponding calls (deliver results, op results
+        # without the run-specific ids) must be equal step by step, not only the final views
+        def heads(w):
+            out, last = [], {}
+            for cmd, res, fp in w.trace:
+                if cmd.startswith("restart"):
+                    continue
+                h = res.split(" ")[0]
+                t = cmd.split()
+                c = t[1] if len(t) > 1 else "-"
+                et = " ".join(fp.split(" ")[:2])          # epoch and state token of the client the call ran on
+                out.append((cmd, "ev" if h.startswith("ev=") else h, last.get(c) is not None and last.get(c) != et))
+                last[c] = et
+            return out
+        ra, rb = heads(a), heads(b)
+        first = next(((x, y) for x, y in zip(ra, rb) if x[0] != y[0] or x[1] != y[1]), None)
+        if first and first[0][0] != first[1][0]:
+            first = None            # the scripts themselves forked (the generator looks at the state): nothing to compare further
+        if va == vb and first is None:
             stats["equal"] += 1
         else:
             diffc = [c for c in va if va[c] != vb.get(c)]
-            what = f"world {b.id}: the run with {nrest} restart(s) ends differently from the same run without: clients {diffc}: without={[va[c] for c in diffc][:2]} with={[vb[c] for c in diffc][:2]}"
-            fails.append({"kind": "oracle", "prop": "C11", "props": ["C11", "C01"], "signature": "hydrated-timestamp-zero" if nrest else "nondeterministic-outcome",
+            what = f"world {b.id}: the run with {nrest} restart(s) " + (f"ends differently from the same run without: clients {diffc}: without={[va[c] for c in diffc][:2]} with={[vb[c] for c in diffc][:2]}" if va != vb else "answers a call differently from the same run without")
+            # which way the first differing call differs: the known defect REFUSES a better competitor after a restart
+            # (the hydrated snapshot has no timestamp); a restart that makes a client ACCEPT a commit (and roll back)
+            # which the uninterrupted client refuses is something else
+            sig = "hydrated-timestamp-zero"
+            if first:
+                what += f" | first differing call `{first[0][0]}`: without={first[0][1]} with={first[1][1]}"
+                if first[0][0].startswith("deliver") and first[1][1].startswith("commit") and not first[0][1].startswith("commit"):
+                    sig = "restart-enables-rollback"
+                elif not (first[0][0].startswith("deliver") and first[0][1].startswith("commit")) or first[1][2]:
+                    # the known defect is a REFUSAL that leaves the restarted client where it was; anything else
+                    # (another call differs, or the restarted client moved — e.g. rolled back — at that call) is new
+                    sig = "restart-changes-result"
+            stats["stepwise_only"] = stats.get("stepwise_only", 0) + (va == vb)
+            fails.append({"kind": "oracle", "prop": "C11", "props": ["C11", "C01"], "signature": sig if nrest else "nondeterministic-outcome",
                           "what": what[:900], "replay_body": b.text(None, what[:300]) + "# --- the same script without restarts ---\n" + a.text()})
     return fails, stats
 
@@ -619,7 +679,7 @@ def replay_world(path, wid=None):
                 backends.append(t[2]); retention = int(t[3])
             if t[0] == "create":
                 admins = [int(x) for x in t[2].split(",") if x not in ("", "-")]
-            if t[0] in ("send", "selfupdate", "data", "leave", "advremove"):
+            if t[0] in ("send", "selfupdate", "data", "leave", "advremove", "remove"):
                 kind = "app" if t[0] == "send" else ("proposal" if t[0] == "leave" else "commit")
                 w.publish(c, kind, int(t[1]))
             elif t[0] == "rewrap":
